@@ -80,7 +80,30 @@ func validateFixed(profile, data string) call {
 // dateCreated draw one per case: what a report says must not depend on the entry point that produced it.
 var routeNames = []string{"ValidateWithConfiguration", "CompileProfile+ValidateCompiledWithConfiguration", "Validate", "CompileProfile+ValidateCompiled"}
 
-func validateVia(route int, profile, data string) call {
+func validateVia(route int, profile, data string) call { return validateViaDebug(route, false, profile, data) }
+
+// validateViaDebug is validateVia with the entry points' debug flag (which must change nothing a caller can see)
+func validateViaDebug(route int, debug bool, profile, data string) call {
+	if debug {
+		switch route % 4 {
+		case 1, 3:
+			q, cc := compileProfileDebug(profile, true)
+			if cc.failed() {
+				return cc
+			}
+			if route%4 == 1 {
+				return guard(func() (string, error) {
+					return pkg.ValidateCompiledWithConfiguration(q, data, true, nil, clock0, config.DefaultReportConfiguration())
+				})
+			}
+			return guard(func() (string, error) { return pkg.ValidateCompiled(q, data, true, nil) })
+		case 2:
+			return guard(func() (string, error) { return pkg.Validate(profile, data, true, nil) })
+		}
+		return guard(func() (string, error) {
+			return pkg.ValidateWithConfiguration(profile, data, true, nil, clock0, config.DefaultReportConfiguration())
+		})
+	}
 	switch route % 4 {
 	case 1:
 		q, cc := compileProfile(profile)
